@@ -69,4 +69,129 @@ CLAIMED = {
     },
 }
 
+CLAIMED.update({
+    "C03": {
+        "technique": "runtime monitoring: reference-evaluator differential on result + in-program event log of generated scoping/binding programs; online scope-event invariants (hooks on Environment.newEnv, FuncLambda.execute, NodeAssign, NodeDef); adequacy by wrong-semantics modes",
+        "text": ("Generated programs (nested definitions to 4 levels over a colliding 5-name pool, closures outliving their frame, "
+                 "mutation after capture, def in blocks/branches, recursion, forward references, every call form and every binding "
+                 "error, method calls along prototype chains) must give the reference evaluator's result and event log; every call "
+                 "frame observed must be a fresh child of the function's defining scope, no assignment may create a binding. A "
+                 "program counts only if one of 12 wrong semantics (dynamic scoping, global def, shared frames, ...) would change "
+                 "what it observes; every wrong mode must be discriminated in every run."),
+        "note": _TB + "; the reference evaluator (lib/cklref/refeval.py) is the oracle; loop variables are outside this property",
+    },
+    "C04": {
+        "technique": "runtime monitoring: reference-evaluator differential on the event log of visited iterations, evaluated conditions and chosen branches; model-free comprehension-vs-explicit-loop agreement on the real interpreter; adequacy by wrong-semantics modes",
+        "text": ("Loop nests <= 3 over lists, sets, maps (keys/values/entries, destructured) and strings with break/continue/return "
+                 "planted at random positions (also through finally parts and called functions), while with logged conditions, "
+                 "if/elif/else with logged conditions must match the reference log; every comprehension form must yield the "
+                 "elements of its explicit loop. Nine wrong semantics (break exits all loops, continue as break, return leaves "
+                 "only the loop, condition tested once, unsorted iteration, filter ignored, also-for stops short, ...) must each "
+                 "be discriminated by some program of the run."),
+        "note": _TB + "; map `values` compared as a multiset between comprehension and loop",
+    },
+    "C05": {
+        "technique": "runtime monitoring: offline exactly-once checker over the in-program event log (every block activation followed by exactly one finally run), reference-evaluator differential for handler choice / block value / error value, CLI children",
+        "text": ("Nests <= 4 of do/catch/finally inside functions and loops with `error v` for every data kind (1 vs 1.0, [1] vs "
+                 "[1.0], sets, maps, NULL) and runtime errors at every statement position, several catch clauses, raising catch "
+                 "expressions, raising handlers and finally parts, exits by return/break/continue through finally: the log must "
+                 "show exactly one finally per activation (model-free) and equal the reference log and outcome. Eight wrong "
+                 "semantics must each be discriminated in every run."),
+        "note": _TB + "; control statements directly inside a finally part: only exactly-once and containment",
+    },
+    "C09": {
+        "technique": "runtime monitoring: sys.addaudithook + stat-family wrappers armed around secure-mode programs (forbidden events recorded and blocked), canary tree diff, reachability walk classified by what each native does in a non-secure calibration run, strace -f syscall cross-check of a secure CLI child",
+        "text": ("In secure interpreters (legacy and not): bind_native for every name the binder knows and every Func* class name "
+                 "with and without alias, then use of whatever got bound; every function reachable by name or through any "
+                 "bundled module called with all tuples (arity <= 2/3) of canary paths and commands; 28 syntactic ways to define "
+                 "or shadow checkerlang_secure_mode x 9 re-binding attempts executed where the shadow is live; hostile user "
+                 "modules. No forbidden audit/stat event, no canary change, flag still TRUE, `run` undefined, no OS-touching "
+                 "native reachable. Thorough adds an strace run: no syscall on the canary, no execve."),
+        "note": _TB + "; a channel invisible to audit events, stat wrappers and strace would go unnoticed; get_env/stdin/clock are outside the statement",
+    },
+    "C10": {
+        "technique": "runtime monitoring: reference session model against the outcome of every interpret call of exhaustively enumerated command histories (one interpreter, two interleaved interpreters, caller-supplied environment) plus a probe sequence",
+        "text": ("All histories of length <= 3 (quick) / <= 4 (thorough) over 13 commands on one interpreter, all histories <= 2 / <= 3 "
+                 "over two interleaved interpreters, all histories <= 2 with one host environment passed to every call, random "
+                 "histories to length 30; after each, 13 probes (bindings, function, module state, load log). Every call outcome "
+                 "and probe must equal the reference session: definitions before a failure persist, nothing after it exists, "
+                 "failed requires leave no residue, interpreters do not see each other."),
+        "note": _TB + "; messages are not compared, only value / error value / syntax error",
+    },
+    "C11": {
+        "technique": "runtime monitoring: reference module model against ls() differences around every require, module-object members, values read through every imported name, a load log written by module top-level code, shared counters and blindness probes compiled into generated modules",
+        "text": ("Random acyclic graphs of <= 5 user modules (public/underscore definitions, functions, state, colliding names, "
+                 "requires between modules in every form) and importer programs of 2..6 requires (plain, as, import [a, b as c] "
+                 "incl. underscore/missing names, unqualified, string/variable specs, repeated, inside functions): each require "
+                 "must bind exactly the predicted names, each module's top level must run once, all importers share one "
+                 "instance, module code must not see importer variables; cyclic graphs must raise."),
+        "note": _TB + "; names a module itself imported count as its public symbols",
+    },
+    "C12": {
+        "technique": "runtime monitoring: output agreement of each program across child processes with different PYTHONHASHSEED, across 20 in-process shuffles of the raw iteration order of every set/map (container subclasses injected into ValueSet/ValueMap), and across permutations of literal element order",
+        "text": ("~100 enumeration paths (for, comprehensions x keys/values/entries, conversions, spread into calls and list literals, "
+                 "destructuring, rendering, interpolation, set arithmetic, every collection-taking library function, seeded "
+                 "random/choice/sample) x generated sets/maps of strings and mixed scalars: (stdout, result, error value) must "
+                 "be identical under 8/32 hash seeds, 20 raw-order shuffles and 6 literal permutations."),
+        "note": _TB + "; the shuffle makes every raw iteration visibly random, the seed sweep is the ground-truth confirmation",
+    },
+    "C14": {
+        "technique": "runtime monitoring: model-free agreement of result, event log, output and error value between the canonical rendering of each generated program and >= 10 token-preserving re-renderings (layout, comments, CR/LF, redundant parentheses, trailing semicolons, literal spellings)",
+        "text": ("Programs of the C02-C05 generators x 11 renderings each (all-LF, all-CRLF, tabs, comment after every token, dense, "
+                 "5 random; hex/binary/underscored ints, both quote styles with equivalent escapes, != vs <>, redundant "
+                 "parentheses around pure expressions, optional trailing semicolons) must all behave like the canonical text."),
+        "note": _TB + "; only token-preserving changes are made; positions/messages not compared",
+    },
+    "C15": {
+        "technique": "runtime monitoring: reference sequence model against interpreted expressions, exhaustive over all sequences <= 4/6 over 3 symbols x all indices -9..9 (single and pairs) x all parts <= 2, plus identities and random long sequences with indices to 2^40",
+        "text": ("Every string over {a,b,c} and list over {0,1,'a'} of length <= 4 (quick, 242 sequences) / <= 6 (thorough, 2186) with "
+                 "every index and index pair in [-9,9]: s[i], s[i to j], s[i to *], substr, sublist, find/find_last with and "
+                 "without start, insert_at, delete_at, element assignment and the split/length/concatenation identities must "
+                 "equal the model (element or runtime error; clamped, never wrapping runs)."),
+        "note": _TB + "; negative start for find/find_last and empty parts not asserted",
+    },
+    "C16": {
+        "technique": "runtime monitoring: argument-snapshot monitor wrapped around ckl.nodes.invoke (content + container identity before/after every library call) on the C13 call matrix and operator forms; heap-model differential for alias programs; independence probes for ~55 constructing operations",
+        "text": ("Every library callee x pool tuples and every operator/indexing form x pool with each argument snapshotted around "
+                 "the call: only append/append_all/insert_at/delete_at/remove/put may change an argument, and only their "
+                 "target; random alias programs (3..5 variables sharing lists/sets/maps/objects, nesting, mutation through "
+                 "variables, parameters, closures, paths) must end in the reference heap's state; mutating the result of each "
+                 "constructing operation must not change its inputs and vice versa."),
+        "note": _TB + "; same-type conversions, identity and selectors return their argument by design; streams are identity-only",
+    },
+    "C17": {
+        "technique": "runtime monitoring: reference calendar (datetime.date.toordinal) against to_oa_date/to_date on every calendar day 1900..9999 (thorough, exhaustive) and through interpreted date arithmetic; icontract postcondition on the real to_date active throughout",
+        "text": ("Every day 1900-01-01..9999-12-31 (thorough: all 2 958 101; quick: every 1 Jan, 31 Dec, 28/29 Feb, 1 Mar + stride): "
+                 "day number == ordinal difference, to_date inverts it, consecutive days differ by 1; int/decimal/date "
+                 "conversions inverse, (d+n)-n == d, (d+n)-d == n for boundary days x 26 offsets; 20k-200k random times of day "
+                 "round-trip to the second."),
+        "note": _TB + "; results outside 1900..9999 are not representable and not asserted",
+    },
+    "C18": {
+        "technique": "runtime monitoring: host-string oracles and mutual-consistency laws over interpreted calls on adversarial strings; template model for s()/sprintf()",
+        "text": ("Strings to length 12 over separators, regex metacharacters, both quotes, backslash, TAB/LF/CR, braces, non-ASCII: "
+                 "split/join inverse both ways with escaped separators, replace == host replace, reverse involution, "
+                 "upper/lower/trim idempotent, contains <=> find >= 0 <=> in <=> host containment, starts_with/ends_with vs "
+                 "substr, length additivity, chr/ord, words/lines, and s()/sprintf() templates with hostile argument text."),
+        "note": _TB + "; Python str semantics are the definition of case mapping and trimming",
+    },
+    "C19": {
+        "technique": "runtime monitoring: host-language reference definitions (set algebra under reference equality, textbook list functions, statistics by sorted index, exact integers, 32-bit words) against interpreted calls; permutation invariance over every permutation of lists <= 5",
+        "text": ("union/intersection/diff/symmetric_diff, unique (first representative, by type), reverse, flatten, zip, enumerate, "
+                 "range/interval, chunks, pairs, grouped, filter, map_list, reduce, sum, prod on random collections with "
+                 "duplicates and 1 next to 1.0, in the legacy environment and module-qualified; mean/median/median_low/"
+                 "median_high/min/max over all permutations; pow/gcd/lcm/abs/sign to 2^80; bitwise functions on 20 boundary "
+                 "words x counts 0..40."),
+        "note": _TB + "; sign of gcd/lcm not fixed; chunks of an empty sequence not asserted",
+    },
+    "C20": {
+        "technique": "runtime monitoring: the layout renderer's own placement record (line of every token) against Token.pos of the real scanner and the positions carried by syntax errors, runtime errors and stack-trace entries of programs with one planted fault; module faults; CLI output",
+        "text": ("Grammar-derived token streams in 7 layouts and every token kind x follower kind: every token's line and file name; "
+                 "programs with exactly one planted fault (9 runtime faults at 5 nesting shapes, a division by zero three calls "
+                 "deep with stack trace, 7 syntax faults) whose construct is on one line while the rest is laid out randomly; "
+                 "the same inside user modules (mod:<name> + module line); CLI (Line ...)."),
+        "note": _TB + "; columns and messages are not claimed",
+    },
+})
+
 UNCLAIMED = {}
